@@ -29,6 +29,19 @@ func (p *Path) now() Value {
 	return s
 }
 
+// timeAt: the time.Time value for second t of the model's clock.
+func (p *Path) timeAt(t *Term) Value {
+	tt := p.eng.namedType("time", "Time")
+	s := p.zero(tt).(Struct)
+	st := tt.Underlying().(*types.Struct)
+	for i := 0; i < st.NumFields(); i++ {
+		if st.Field(i).Name() == "ext" {
+			s[i] = t
+		}
+	}
+	return s
+}
+
 func (p *Path) instant() Value {
 	t := p.fresh("inst", 64)
 	c := p.ctx
